@@ -14,7 +14,9 @@ package scen
 // Oracle rule ids (clause of the property they state):
 //
 //	crawler:  bucket-query-twice, dialed-twice   "queries every peer ... exactly once"
-//	          crawl-missed, crawl-invented        "every peer reachable from its seeds"
+//	          crawl-missed, crawl-invented        "every peer reachable from its seeds" (a seed without any address -
+//	                                              AddrInfo and peerstore - counts as reachable once a delivered reply
+//	                                              of a fully queried peer, or a later seed entry, carries an address for it)
 //	          callback-count, callback-uncrawled  "exactly one outcome per queried peer"
 //	          callback-wrong, success-content     the outcome matches what the peer did
 //	          run-hang, work-after-return         Run returns after all work ended
@@ -356,6 +358,8 @@ type c16World struct {
 	S   *sim.Sim
 	U   *simnet.Universe
 	Beh map[peer.ID]*c16Beh
+	// OnDialOK (optional) runs right before a dial is released as successful.
+	OnDialOK func(p peer.ID)
 }
 
 // c16QueryBuckets is the range of bucket indexes over which the scripted
@@ -553,6 +557,9 @@ func (w *c16World) crawlActions(o *crawlObs) []sim.Action {
 					s.Release(p, simhost.ErrDialFailed)
 				} else {
 					o.dialOut[who] = append(o.dialOut[who], "ok")
+					if w.OnDialOK != nil {
+						w.OnDialOK(who)
+					}
 					s.Release(p, nil)
 				}
 			}})
@@ -738,8 +745,19 @@ func checkCrawl(s *sim.Sim, u *simnet.Universe, h *simhost.Host, snd *c16Sender,
 		}
 		return set
 	}
+	// A seed for which neither its AddrInfo (any of its entries in the seed
+	// list) nor the host's peerstore had an address when Run was called cannot
+	// be dialed as a seed (Run skips it without an outcome); it is reachable
+	// once a delivered reply of a fully and successfully queried peer names it -
+	// every reply carries the named peers' addresses - like any other peer.
 	must := closure(func(v *verdict) bool { return v.okFull }, func(p peer.ID) bool { return o.seedHasAddr[p] })
 	may := closure(func(v *verdict) bool { return true }, func(peer.ID) bool { return true })
+	for _, p := range o.seeds {
+		if !o.seedHasAddr[p] && must[p] {
+			s.Count("probe_addrless_seed_reachable_by_referral")
+			break
+		}
+	}
 
 	for _, p := range u.Peers {
 		v := vs[p.ID]
